@@ -20,6 +20,7 @@ from .. import layout, nf, vg
 from ..core import Ctx
 from ..envs import generator_class
 from ..model import AnalysisError
+from .C10 import is_neg_inf as C10_is_neg_inf
 
 FLOOR = 40
 EXPLANATION = (
@@ -89,15 +90,135 @@ def helpers(ctx: Ctx):
         fi = ctx.repo.get_function(OPS, nm)
         ctx.fn(fi)
         loops = [n for n in ast.walk(fi.node) if isinstance(n, ast.For)]
-        ok = len(loops) == 1 and ast.unparse(loops[0].iter).replace(" ", "") == "reversed(shape)"
         single = "_" + nm + "_single"
+        ok = len(loops) == 1 and isinstance(loops[0].iter, ast.Call) and getattr(loops[0].iter.func, "id", "") == "reversed" and len(loops[0].iter.args) == 1
         ok = ok and any(isinstance(n, ast.Call) and getattr(n.func, "id", "") == single for n in ast.walk(loops[0])) if loops else False
         ctx.ob("C12.a", f"{nm}:loop", ok, fi.loc, f"for s in reversed(shape): x = {single}(x, s)", construct=f"{nm}:loop-order")
+        # factors <= 0 are skipped, factors >= 1 are applied (POMO passes n_aug = 0 for "no augmentation")
+        it = vg.Interp(ctx.repo, None, inline_policy=lambda f, a: False)
+        fr = it.run_function(fi)
+        okg, whyg = False, "conditional application not found"
+        for n in (vg.walk(fr.ret) if isinstance(fr.ret, vg.S) else []):
+            if n.op in ("ifexp", "phi") and any(nf._fn(m) is not None and nf._fn(m).endswith(":" + single) for m in vg.walk(n.args[1])):
+                r_ = nf.cmpnf(n.args[0])
+                if r_ is not None:
+                    d_, op_ = r_
+                    its = [a for a in d_.atoms() if a.op == "iter"]
+                    okg = len(its) == 1 and ((op_ == ">0" and d_ == nf.Poly.atom(its[0])) or (op_ == ">=0" and d_ == nf.Poly.atom(its[0]) - nf.Poly.const(1)))
+                    whyg = f"{single} is applied iff {vg.show(n.args[0], 3)}"
+        ctx.ob("C12.a", f"{nm}:skip-nonpositive", okg, fi.loc, whyg + " (needs: iff the factor is > 0)", construct=f"{nm}:factor-guard")
     fi = ctx.repo.get_function(OPS, "unbatchify_and_gather")
     ctx.fn(fi)
-    src = ast.unparse(fi.node)
-    ok = "x = unbatchify(x, n)" in src and "gather_by_index(x, idx, dim=idx.dim())" in src
-    ctx.ob("C12.c", "unbatchify_and_gather", ok, fi.loc, "gathers on axis idx.dim() = the replica axis created by unbatchify", construct="unbatchify_and_gather:axis")
+    it = vg.Interp(ctx.repo, None, inline_policy=lambda f, a: False)
+    r = it.run_function(fi).ret
+    ok = False
+    if isinstance(r, vg.S) and (nf._fn(r) or "").endswith(":gather_by_index") and len(r.args) >= 3:
+        src_, idx_ = r.args[1], r.args[2]
+        kws = {k.args[0]: k.args[1] for k in r.args[3:] if isinstance(k, vg.S) and k.op == "kw"}
+        d_ = kws.get("dim", r.args[3] if len(r.args) > 3 and r.args[3].op != "kw" else None)
+        ok = (nf._fn(src_) or "").endswith(":unbatchify") and src_.args[1].op == "param" and src_.args[1].args[0] == "x" and src_.args[2].op == "param" and src_.args[2].args[0] == "n" \
+            and idx_.op == "param" and idx_.args[0] == "idx" and d_ is not None and axis_of_gather_dim(d_, idx_) == ("rel", -1)
+    ctx.ob("C12.c", "unbatchify_and_gather", ok, fi.loc, "gathers unbatchify(x, n) on axis idx.dim() = the replica axis created by unbatchify", construct="unbatchify_and_gather:axis")
+
+
+def dim_of(a):
+    """(tensor, k) when `a` is tensor.shape[k] or tensor.size(k)"""
+    if isinstance(a, vg.S) and a.op == "sub" and a.args[0].op == "attr" and a.args[0].args[1] == "shape" and a.args[1].op == "const":
+        return a.args[0].args[0], a.args[1].args[0]
+    if isinstance(a, vg.S) and a.op == "meth" and a.args[1] == "size" and len(a.args) == 3 and a.args[2].op == "const":
+        return a.args[0], a.args[2].args[0]
+    return None
+
+
+def axis_of_max(m):
+    """axis reduced by a `.max(dim=d)` / `torch.max(x, d)` node: ('abs', d) for d >= 0, ('rel', d) for d < 0 (relative to the operand's rank)"""
+    if m.op == "meth" and m.args[1] in ("max", "min"):
+        rest = m.args[2:]
+    elif nf._fn(m) in ("torch.max", "torch.min"):
+        rest = m.args[2:]
+    else:
+        return None
+    d = None
+    for x in rest:
+        if isinstance(x, vg.S) and x.op == "kw":
+            if x.args[0] == "dim":
+                d = x.args[1]
+            elif x.args[0] == "keepdim" and not vg.is_const(x.args[1], False):
+                return None
+        elif d is None:
+            d = x
+    if not (isinstance(d, vg.S) and d.op == "const" and isinstance(d.args[0], int)):
+        return None
+    return ("abs", d.args[0]) if d.args[0] >= 0 else ("rel", d.args[0])
+
+
+def axis_of_gather_dim(d, idx):
+    """axis named by the `dim` operand of a gather whose index is `idx` = max(...)[1]: a constant, or idx.dim() (= rank of
+    the reduced tensor - 1, i.e. its last axis)"""
+    if isinstance(d, vg.S) and d.op == "const" and isinstance(d.args[0], int):
+        return ("abs", d.args[0]) if d.args[0] >= 0 else None
+    if isinstance(d, vg.S) and ((d.op == "meth" and d.args[1] in ("dim", "ndimension")) or (d.op == "attr" and d.args[1] == "ndim")) and d.args[0] is idx:
+        return ("rel", -1)
+    return None
+
+
+def _alts(v):
+    if isinstance(v, vg.S) and v.op in ("phi", "ifexp"):
+        return _alts(v.args[1]) + _alts(v.args[2])
+    if isinstance(v, vg.S) and v.op == "undef":
+        return []
+    return [v]
+
+
+def best_of_pairs(it, fr):
+    """every (gather, argmax) pair of a function: gather_by_index / unbatchify_and_gather nodes whose index operand is
+    `max(...)[1]`; returns [(gather node, max node, gather axis, max axis, regrouping factors agree)]"""
+    roots = []
+    for f in [fr] + list(it.call_frames):
+        roots += [v for v in f.locals.values() if isinstance(v, vg.S)]
+        for c, v in f.returns:
+            roots.append(v)
+    for e in it.events:
+        if e.kind == "methcall":
+            roots += [x for x in e.data[2] if isinstance(x, vg.S)]
+            roots += [x for x in (e.data[3].values() if len(e.data) > 3 and isinstance(e.data[3], dict) else []) if isinstance(x, vg.S)]
+    seen, out = set(), []
+    for r in roots:
+        for n in vg.walk(r):
+            if n.id in seen:
+                continue
+            seen.add(n.id)
+            fn = nf._fn(n) or ""
+            if not (fn.endswith(":gather_by_index") or fn.endswith(":unbatchify_and_gather")) or len(n.args) < 3:
+                continue
+            for idx in _alts(n.args[2]):
+                if not (idx.op == "sub" and vg.is_const(idx.args[1], 1)):
+                    continue
+                m = idx.args[0]
+                am = axis_of_max(m)
+                if am is None and not (m.op == "meth" and m.args[1] in ("max", "min")):
+                    continue
+                if fn.endswith(":unbatchify_and_gather"):
+                    ag = ("rel", -1)
+                else:
+                    kws = {k.args[0]: k.args[1] for k in n.args[3:] if isinstance(k, vg.S) and k.op == "kw"}
+                    d = kws.get("dim", n.args[3] if len(n.args) > 3 and n.args[3].op != "kw" else vg.const(1))
+                    ag = axis_of_gather_dim(d, n.args[2])
+                # regrouping factors of the two operands
+                def fac(x):
+                    fs = []
+                    for a in _alts(x):
+                        if (nf._fn(a) or "").endswith(":unbatchify") and len(a.args) >= 3:
+                            fs.append(a.args[2])
+                    return fs
+                red = m.args[0] if m.op == "meth" else m.args[1]
+                f_red = fac(red)
+                f_src = [n.args[3]] if fn.endswith(":unbatchify_and_gather") and len(n.args) > 3 else fac(n.args[1])
+                agree = None
+                if f_red and f_src:
+                    agree = all(a is b for a in f_red for b in f_src)
+                out.append((n, m, ag, am, agree))
+    return out
 
 
 def einops_sites(ctx: Ctx):
@@ -199,23 +320,23 @@ def factor_sites(ctx: Ctx):
             ok = len({norm_factor(t) for _, t, _ in facs}) == 1
         ctx.ob("C12.b", f"{fn}:factors", ok, fi.loc, f"replication factors used: {[(a, t) for a, t, _ in facs]}" + ("" if ok else " -- expansion and regrouping use different factors"),
                construct=f"{fn}:factor-agreement")
-    # best-of agreement
-    for rel, fn in (("rl4co/tasks/eval.py", "AugmentationEval._inner"), ("rl4co/tasks/eval.py", "GreedyMultiStartEval._inner"), ("rl4co/tasks/eval.py", "GreedyMultiStartAugmentEval._inner")):
+    # best-of agreement: the axis the argmax was taken over is the axis the index is gathered on, and both operands were
+    # regrouped with the same factor
+    sites = [("rl4co/tasks/eval.py", "AugmentationEval._inner", 1), ("rl4co/tasks/eval.py", "GreedyMultiStartEval._inner", 1),
+             ("rl4co/tasks/eval.py", "GreedyMultiStartAugmentEval._inner", 1), (DEC, "DecodingStrategy._select_best", 3),
+             ("rl4co/models/zoo/pomo/model.py", "POMO.shared_step", 2)]
+    for rel, fn, floor in sites:
         fi = ctx.repo.get_function(rel, fn)
-        src = ast.unparse(fi.node)
-        m1 = re.search(r"rewards, max_idxs = rewards\.max\(dim=(-?\d+)\)", src)
-        m2 = re.search(r"actions = gather_by_index\(actions, max_idxs, dim=(-?\d+)\)", src)
-        ok = bool(m1 and m2 and m1.group(1) == m2.group(1) == "1")
-        ctx.ob("C12.c", f"{fn}:best-of", ok, fi.loc, f"max over dim {m1.group(1) if m1 else '?'} / gather on dim {m2.group(1) if m2 else '?'} of the [B, k, ...] regrouping", construct=f"{fn}:best-of-axis")
-    fi = ctx.repo.get_function(DEC, "DecodingStrategy._select_best")
-    src = ast.unparse(fi.node)
-    ok = "_, max_idxs = unbatchify(rewards, self.num_starts).max(dim=-1)" in src and all(f"{x} = unbatchify_and_gather({x}, max_idxs, self.num_starts)" in src for x in ("actions", "logprobs", "td"))
-    ctx.ob("C12.c", "DecodingStrategy._select_best:best-of", ok, fi.loc, "argmax over the replica axis of [B, k] rewards; actions, logprobs and td gathered with that same index", construct="DecodingStrategy._select_best:best-of")
-    for rel, fn in (("rl4co/models/zoo/pomo/model.py", "POMO.shared_step"),):
-        fi = ctx.repo.get_function(rel, fn)
-        src = ast.unparse(fi.node)
-        ok = src.count("max_reward, max_idxs = reward.max(dim=-1)") >= 1 and "gather_by_index(actions, max_idxs, dim=max_idxs.dim())" in src
-        ctx.ob("C12.c", f"{fn}:best-of", ok, fi.loc, "max over the last (starts) axis of [B, aug, starts]; actions gathered on axis max_idxs.dim() (the starts axis)", construct=f"{fn}:best-of-axis")
+        ctx.fn(fi)
+        it = vg.Interp(ctx.repo, fi.cls, inline_policy=lambda f, a: False)
+        fr = it.run_function(fi)
+        pairs = best_of_pairs(it, fr)
+        if len(pairs) < floor:
+            raise AnalysisError(f"{fn}: expected >= {floor} (argmax, gather) pairs, found {len(pairs)}")
+        bad = [(g, m, ag, am, agree) for g, m, ag, am, agree in pairs if ag is None or am is None or ag != am or agree is False]
+        ok = not bad
+        why = f"{len(pairs)} (argmax, gather) pair(s): " + "; ".join(f"max over {am}, gather on {ag}" + ("" if agree is None else f", same regrouping factor: {agree}") for _, _, ag, am, agree in pairs[:4])
+        ctx.ob("C12.c", f"{fn}:best-of", ok, fi.loc, why, construct=f"{fn}:best-of-axis")
 
 
 def start_nodes(ctx: Ctx):
@@ -281,31 +402,185 @@ def start_nodes(ctx: Ctx):
             why = (f"index 0 is skipped (+1); default number of starts excludes it: {counted}; generator.num_loc bounds the index by modulo: {has_num_loc}" +
                    ("" if ok else f" -- with the default num_starts = mask width the selected indices run up to the mask width itself (out of range) for env '{name}'"))
         ctx.ob("C12.d", f"start-range:{name}", ok, ss.loc, why, construct=f"select_start_nodes:range:{name}")
-    # the formula itself
-    src = _ast.unparse(ss.node)
-    ok = src.count("torch.arange(num_starts, device=td.device).repeat_interleave(td.shape[0]) % num_loc") == 2 and "% num_loc + 1" in src
-    ctx.ob("C12.d", "select_start_nodes:formula", ok, ss.loc, "replica index modulo num_loc (+1 for depot-style envs)", construct="select_start_nodes:formula")
+    # ---- the formulas, on the value graph
+    def replica_index(x):
+        """x == arange(num_starts).repeat_interleave(<batch size>) % M  ->  M (else None)"""
+        if not (isinstance(x, vg.S) and x.op == "%"):
+            return None
+        a = nf.strip(x.args[0])
+        if not (a.op == "meth" and a.args[1] == "repeat_interleave" and len(a.args) >= 3):
+            return None
+        ar, rep = nf.strip(a.args[0]), a.args[2]
+        if nf._fn(ar) != "torch.arange":
+            return None
+        pos = [y for y in ar.args[1:] if not (isinstance(y, vg.S) and y.op == "kw")]
+        if not (len(pos) == 1 and pos[0].op == "param" and pos[0].args[0] == "num_starts"):
+            return None
+        if not ((dim_of(rep) is not None and dim_of(rep)[1] == 0) or (rep.op == "sub" and vg.is_const(rep.args[1], 0) and rep.args[0].op == "attr" and rep.args[0].args[1] == "batch_size")):
+            return None
+        return x.args[1]
+
+    def guarded(v, g=()):
+        if isinstance(v, vg.S) and v.op in ("phi", "ifexp"):
+            yield from guarded(v.args[1], g + ((v.args[0], True),))
+            yield from guarded(v.args[2], g + ((v.args[0], False),))
+        else:
+            yield g, v
+
+    it = vg.Interp(ctx.repo, None, inline_policy=lambda f, a: False)
+    fr = it.run_function(ss)
+    alts = [(g, v) for c, v0 in fr.returns for g, v in guarded(v0)]
+    n_plain = n_depot = 0
+    ok, why = True, []
+    op_alt = None
+    for g, v in alts:
+        names_true = set()
+        for t, b in g:
+            if b and t.op in ("in", "==") and "name" in vg.show(t.args[0], 2):
+                c = t.args[1]
+                names_true |= set(x.args[0] for x in (c.args if c.op in ("list", "tuple") else [c]) if x.op == "const") if c.op in ("list", "tuple") else ({c.args[0]} if c.op == "const" else set())
+        if (nf._fn(v) or "").endswith("rearrange"):
+            op_alt = (g, v)
+            continue
+        if names_true & no_depot:
+            m_ = replica_index(v)
+            n_plain += 1
+            if m_ is None:
+                ok = False
+                why.append(f"no-depot branch returns {vg.show(v, 4)}")
+        else:
+            d1 = None
+            if isinstance(v, vg.S):
+                pv = nf.poly(v)
+                mods = [a for a in pv.atoms() if a.op == "%"]
+                if len(mods) == 1 and pv == nf.Poly.atom(mods[0]) + nf.Poly.const(1):
+                    d1 = replica_index(mods[0])
+            n_depot += 1
+            if d1 is None:
+                ok = False
+                why.append(f"depot branch returns {vg.show(v, 4)}")
+    ok = ok and n_plain >= 1 and n_depot >= 1
+    ctx.ob("C12.d", "select_start_nodes:formula", ok, ss.loc, f"replica index r // B modulo num_loc ({n_plain} no-depot alternative(s)), + 1 for depot-style envs ({n_depot} alternative(s))" + ("; " + "; ".join(why) if why else ""),
+           construct="select_start_nodes:formula")
+    # OP: starts are re-drawn from the feasible non-depot nodes exactly when some instance has fewer than num_starts of them
+    okp, whyp = False, "OP resampling alternative not found"
+    if op_alt is not None:
+        g, v = op_alt
+        tests = [t for t, b in g if b and t.op == "meth" and t.args[1] == "any"]
+        is_op = any(b and t.op == "==" and any(vg.is_const(x, "op") for x in t.args) for t, b in g)
+        src = v.args[1] if len(v.args) > 1 else None
+        pv = nf.poly(src) if isinstance(src, vg.S) else None
+        mult = [a for a in (pv.atoms() if pv is not None else []) if nf._fn(a) == "torch.multinomial"]
+        f_ok = len(mult) == 1 and pv == nf.Poly.atom(mult[0]) + nf.Poly.const(1)
+        c_ok = False
+        if tests:
+            r_ = nf.cmpnf(tests[0].args[0])
+            if r_ is not None:
+                d_, op_ = r_
+                # num_starts - feasible > 0
+                k = nf.poly(vg.mk("param", "num_starts"))
+                rest = k - d_
+                sums = [a for a in rest.atoms() if a.op == "meth" and a.args[1] == "sum"]
+                c_ok = op_ == ">0" and len(sums) == 1 and rest == nf.Poly.atom(sums[0]) and "action_mask" in vg.cells_of(sums[0]) | {c for c in ("action_mask",) if "action_mask" in vg.show(sums[0], 6)}
+        w_ok = False
+        if mult:
+            m0 = mult[0]
+            pos = [y for y in m0.args[1:] if not (isinstance(y, vg.S) and y.op == "kw")]
+            kws = {k_.args[0]: k_.args[1] for k_ in m0.args[1:] if isinstance(k_, vg.S) and k_.op == "kw"}
+            w = nf.strip(pos[0]) if pos else None
+            # weights = the mask without its depot column
+            w_ok = w is not None and "action_mask" in vg.show(w, 6) and len(pos) >= 2 and pos[1].op == "param" and pos[1].args[0] == "num_starts" and vg.is_const(kws.get("replacement", vg.const(False)), True)
+            tsub = tests[0].args[0] if tests else None
+        pat = v.args[2].args[0] if len(v.args) > 2 and v.args[2].op == "const" else ""
+        try:
+            order = layout.merged_order(pat)
+        except Exception:
+            order = None
+        l_ok = order is not None and order[-1] in BATCH_SYMS
+        okp = is_op and f_ok and c_ok and w_ok and l_ok
+        whyp = f"only for env 'op': {is_op}; condition = some row has fewer than num_starts feasible non-depot nodes (strict): {c_ok}; multinomial over the mask (replacement) + 1: {f_ok and w_ok}; flattened batch-minor: {l_ok}"
+    ctx.ob("C12.d", "select_start_nodes:op-resample", okp, ss.loc, whyp, construct="select_start_nodes:op-resample")
+    # default number of starts
+    it = vg.Interp(ctx.repo, None, inline_policy=lambda f, a: False)
+    frg = it.run_function(gs)
+    w_ = None
+    okn, whyn = True, []
+    seen = {"pdp": 0, "depot": 0, "plain": 0}
+    for c, v0 in frg.returns:
+        for g, v in guarded(v0):
+            kind = "plain"
+            for t, b in g:
+                if b and t.op == "==" and any(vg.is_const(x, "pdp") for x in t.args):
+                    kind = "pdp"
+                elif b and t.op == "in":
+                    kind = "depot"
+            widths = [a for a in vg.walk(v) if dim_of(a) is not None and dim_of(a)[1] == -1 and "action_mask" in vg.show(dim_of(a)[0], 3)]
+            if len(widths) != 1:
+                okn = False
+                whyn.append(f"{kind}: mask width not found in {vg.show(v, 4)}")
+                continue
+            W = nf.poly(widths[0])
+            seen[kind] += 1
+            if kind == "plain":
+                good = nf.poly(v) == W
+            elif kind == "depot":
+                good = nf.poly(v) == W - nf.Poly.const(1)
+            else:
+                vv = nf.strip(v)
+                good = vv.op == "//" and vg.is_const(vv.args[1], 2) and nf.poly(vv.args[0]) == W - nf.Poly.const(1)
+            if not good:
+                okn = False
+                whyn.append(f"{kind}: returns {vg.show(v, 4)}")
+    okn = okn and all(seen.values())
+    ctx.ob("C12.d", "get_num_starts:formula", okn, gs.loc, "mask width W for depot-less envs, W - 1 when index 0 is a depot / dummy node, (W - 1) // 2 for PDP (pickups)" + ("; " + "; ".join(whyn) if whyn else ""),
+           construct="get_num_starts:formula")
     # PDP: pickups only
     fi = ctx.repo.get_function("rl4co/envs/routing/pdp/env.py", "PDPEnv.select_start_nodes")
     ctx.fn(fi)
-    src = _ast.unparse(fi.node)
-    halves = [n for n in _ast.walk(fi.node) if isinstance(n, _ast.Assign) and isinstance(n.value, _ast.BinOp) and isinstance(n.value.op, _ast.FloorDiv)
-              and isinstance(n.value.right, _ast.Constant) and n.value.right.value == 2 and "- 1" in _ast.unparse(n.value.left)]
-    var = _ast.unparse(halves[0].targets[0]) if halves else "?"
-    ok = bool(halves) and f"% {var} + 1" in src
-    ctx.ob("C12.d", "PDPEnv.select_start_nodes:pickups", ok, fi.loc, "start index = replica % (num_loc // 2) + 1: pickups only", construct="PDPEnv.select_start_nodes:range")
-    # sampled starts: with replacement only when fewer than n valid actions exist
+    it = vg.Interp(ctx.repo, fi.cls, inline_policy=lambda f, a: False)
+    r = it.run_function(fi).ret
+    ok = False
+    if isinstance(r, vg.S):
+        pv = nf.poly(r)
+        mods = [a for a in pv.atoms() if a.op == "%"]
+        if len(mods) == 1 and pv == nf.Poly.atom(mods[0]) + nf.Poly.const(1):
+            M = replica_index(mods[0])
+            M = nf.strip(M) if M is not None else None
+            if M is not None and M.op == "//" and vg.is_const(M.args[1], 2):
+                inner = nf.poly(M.args[0])
+                ws = [a for a in inner.atoms() if dim_of(a) is not None and dim_of(a)[1] == -2 and "locs" in vg.show(dim_of(a)[0], 4)]
+                ok = len(ws) == 1 and inner == nf.Poly.atom(ws[0]) - nf.Poly.const(1)
+    ctx.ob("C12.d", "PDPEnv.select_start_nodes:pickups", ok, fi.loc, "start index = replica % ((num_nodes - 1) // 2) + 1: pickups only", construct="PDPEnv.select_start_nodes:range")
+    # sampled starts: infeasible nodes get probability 0, replacement only when fewer than n valid actions exist
     fi = ctx.repo.get_function(OPS, "sample_n_random_actions")
     ctx.fn(fi)
-    ok, why = False, "replacement test not found"
-    for node in _ast.walk(fi.node):
-        if isinstance(node, _ast.If) and isinstance(node.test, _ast.Compare) and any(isinstance(b, _ast.Assign) and _ast.unparse(b) == "replace = True" for b in node.body):
-            t = node.test
-            l, op, r_ = _ast.unparse(t.left), t.ops[0], _ast.unparse(t.comparators[0])
-            strict_lt = (isinstance(op, _ast.Lt) and "valid" in l and r_ == "n") or (isinstance(op, _ast.Gt) and "valid" in r_ and l == "n")
-            ok = strict_lt
-            why = f"replace = True iff `{_ast.unparse(t)}`" + ("" if ok else ": must be strictly fewer valid actions than requested (with exactly n valid actions the n starts have to be distinct)")
+    it = vg.Interp(ctx.repo, None, inline_policy=lambda f, a: False)
+    fr = it.run_function(fi)
+    mult = [a for a in vg.walk(fr.ret) if nf._fn(a) == "torch.multinomial"] if isinstance(fr.ret, vg.S) else []
+    ok, why = False, "multinomial draw not found"
+    okm, whym = False, "masking of the sampling weights not found"
+    if len(mult) == 1:
+        m0 = mult[0]
+        pos = [y for y in m0.args[1:] if not (isinstance(y, vg.S) and y.op == "kw")]
+        kws = {k_.args[0]: k_.args[1] for k_ in m0.args[1:] if isinstance(k_, vg.S) and k_.op == "kw"}
+        rep = kws.get("replacement", pos[2] if len(pos) > 2 else None)
+        if isinstance(rep, vg.S) and rep.op in ("phi", "ifexp"):
+            t, a, b = rep.args
+            r_ = nf.cmpnf(t)
+            if r_ is not None and vg.is_const(a, True) and vg.is_const(b, False):
+                d_, op_ = r_
+                n_ = nf.poly(vg.mk("param", "n"))
+                rest = n_ - d_
+                ok = op_ == ">0" and len(rest.atoms()) == 1 and "action_mask" in vg.show(rest.atoms()[0], 6) and rest == nf.Poly.atom(rest.atoms()[0])
+                why = f"replacement = True iff {vg.show(t, 4)}" + ("" if ok else ": must be strictly fewer valid actions than requested (with exactly n valid actions the n starts have to be distinct)")
+        w = nf.strip(pos[0]) if pos else None
+        if w is not None and nf._fn(w) in ("torch.softmax", "torch.nn.functional.softmax") or (w is not None and w.op == "meth" and w.args[1] == "softmax"):
+            inner = w.args[1] if w.op == "call" else w.args[0]
+            st = [x for x in vg.walk(inner) if x.op == "store"]
+            okm = len(st) == 1 and nf.strip(st[0].args[1], True).op in ("inv", "not") and "action_mask" in vg.show(st[0].args[1], 4) and C10_is_neg_inf(st[0].args[2])
+            whym = "weights[~action_mask] = -inf before the softmax: infeasible actions have probability exactly 0"
     ctx.ob("C12.d", "sample_n_random_actions:replacement-only-if-needed", ok, fi.loc, why, construct="sample_n_random_actions:replacement")
+    ctx.ob("C12.d", "sample_n_random_actions:masked-weights", okm, fi.loc, whym, construct="sample_n_random_actions:masking")
     return n
 
 
